@@ -446,6 +446,8 @@ pub struct GridSpec {
     pub chord: u64,
     pub base: (i32, i32),
     pub swap: bool,
+    /// rotate the layout by 45 degrees: (i, j) -> (i + j, i - j), so that the diagonal axes are the natural ones
+    pub rot: bool,
     /// 0 = row-major ids, 1 = random ids, 2 = reversed
     pub order: u8,
 }
@@ -549,6 +551,7 @@ pub fn gen_grid(rng: &mut Rng, s: &GridSpec) -> Graph {
     for &x in &members {
         let (i, j) = ((x / w) as i64, (x % w) as i64);
         let (gi, gj) = if s.swap { (j, i) } else { (i, j) };
+        let (gi, gj) = if s.rot { (gi + gj, gi - gj) } else { (gi, gj) };
         loop {
             let lat = s.base.0 as i64 + gi * spacing + rng.below(pr as u64) as i64;
             let lon = s.base.1 as i64 + gj * spacing + rng.below(pr as u64) as i64;
